@@ -18,32 +18,32 @@ type Config struct {
 	Profile string `json:"profile"`
 	Seed    uint64 `json:"seed"`
 
-	R               int64  `json:"r"`    // chunk range == min block duration
-	MaxMul          int64  `json:"mul"`  // max block duration = R*MaxMul
-	Step            int64  `json:"step"` // time unit of relative offsets
-	Start           int64  `json:"start"`
-	NSeries         int    `json:"nseries"`
-	SamplesPerChunk int    `json:"spc"`
-	OOOWindow       int64  `json:"ooo"`
-	OOOCapMax       int64  `json:"ooocap"`
-	WALSegKB        int    `json:"walkb"`
-	WALComp         string `json:"walcomp"`
-	Queue           int    `json:"queue"`
-	IsoOff          bool   `json:"isooff,omitempty"`
-	Overlap         bool   `json:"overlap,omitempty"`
-	Snapshot        bool   `json:"snap,omitempty"`
-	FastStart       bool   `json:"fast,omitempty"`
-	ST              bool   `json:"st,omitempty"`
-	XOR2            bool   `json:"xor2,omitempty"`
-	HistST          bool   `json:"histst,omitempty"`
-	Sharding        bool   `json:"shard,omitempty"`
-	Exemplars       bool   `json:"ex,omitempty"`
-	V2              bool   `json:"v2,omitempty"`
-	ReplayConc      int    `json:"rc,omitempty"`
-	RetentionMs     int64  `json:"ret,omitempty"`
-	MaxBytes        int64  `json:"maxb,omitempty"`
+	R               int64   `json:"r"`    // chunk range == min block duration
+	MaxMul          int64   `json:"mul"`  // max block duration = R*MaxMul
+	Step            int64   `json:"step"` // time unit of relative offsets
+	Start           int64   `json:"start"`
+	NSeries         int     `json:"nseries"`
+	SamplesPerChunk int     `json:"spc"`
+	OOOWindow       int64   `json:"ooo"`
+	OOOCapMax       int64   `json:"ooocap"`
+	WALSegKB        int     `json:"walkb"`
+	WALComp         string  `json:"walcomp"`
+	Queue           int     `json:"queue"`
+	IsoOff          bool    `json:"isooff,omitempty"`
+	Overlap         bool    `json:"overlap,omitempty"`
+	Snapshot        bool    `json:"snap,omitempty"`
+	FastStart       bool    `json:"fast,omitempty"`
+	ST              bool    `json:"st,omitempty"`
+	XOR2            bool    `json:"xor2,omitempty"`
+	HistST          bool    `json:"histst,omitempty"`
+	Sharding        bool    `json:"shard,omitempty"`
+	Exemplars       bool    `json:"ex,omitempty"`
+	V2              bool    `json:"v2,omitempty"`
+	ReplayConc      int     `json:"rc,omitempty"`
+	RetentionMs     int64   `json:"ret,omitempty"`
+	MaxBytes        int64   `json:"maxb,omitempty"`
 	MaxPct          float64 `json:"maxpct,omitempty"`
-	FsSize          int64  `json:"fssize,omitempty"`
+	FsSize          int64   `json:"fssize,omitempty"`
 
 	// KF: this run deliberately exercises the input patterns of listed known findings (see known_findings.json);
 	// all other runs avoid them so that they keep exploring past those patterns.
@@ -67,26 +67,26 @@ type Matcher struct {
 // Op is one workload operation. Timestamps are relative descriptors resolved at execution
 // time so that shrinking (dropping ops) leaves the remaining ops meaningful.
 type Op struct {
-	K    string `json:"k"`
-	Slot int    `json:"slot,omitempty"`
-	S    int    `json:"s,omitempty"`
-	TB   string `json:"tb,omitempty"` // time base: now|hmax|slast|minv|oooe|abs
-	TO   int64  `json:"to,omitempty"` // offset in Steps
-	TF   int64  `json:"tf,omitempty"` // fine offset in ms
-	VK   int    `json:"vk,omitempty"` // 0 float 1 hist 2 fhist 3 stale
-	VM   int    `json:"vm,omitempty"` // 0 fresh unique value, 1 repeat the series' newest value
-	HM   int    `json:"hm,omitempty"`
-	HS   uint64 `json:"hs,omitempty"`
-	Ref  int    `json:"ref,omitempty"` // 0 no ref, 1 cached ref
-	Rej  bool   `json:"rej,omitempty"` // reject-out-of-order option
+	K    string    `json:"k"`
+	Slot int       `json:"slot,omitempty"`
+	S    int       `json:"s,omitempty"`
+	TB   string    `json:"tb,omitempty"` // time base: now|hmax|slast|minv|oooe|abs
+	TO   int64     `json:"to,omitempty"` // offset in Steps
+	TF   int64     `json:"tf,omitempty"` // fine offset in ms
+	VK   int       `json:"vk,omitempty"` // 0 float 1 hist 2 fhist 3 stale
+	VM   int       `json:"vm,omitempty"` // 0 fresh unique value, 1 repeat the series' newest value
+	HM   int       `json:"hm,omitempty"`
+	HS   uint64    `json:"hs,omitempty"`
+	Ref  int       `json:"ref,omitempty"` // 0 no ref, 1 cached ref
+	Rej  bool      `json:"rej,omitempty"` // reject-out-of-order option
 	M    []Matcher `json:"m,omitempty"`
-	MB   string `json:"mb,omitempty"` // delete/query mint base: min|abs|now|hmax
-	MO   int64  `json:"mo,omitempty"`
-	XB   string `json:"xb,omitempty"`
-	XO   int64  `json:"xo,omitempty"`
-	N    int64  `json:"n,omitempty"`
-	Rep  int    `json:"rep,omitempty"` // add: repeat count (one sample per millisecond), for multi-page WAL records
-	Sel  []int  `json:"sel,omitempty"` // series indexes (compactsel)
+	MB   string    `json:"mb,omitempty"` // delete/query mint base: min|abs|now|hmax
+	MO   int64     `json:"mo,omitempty"`
+	XB   string    `json:"xb,omitempty"`
+	XO   int64     `json:"xo,omitempty"`
+	N    int64     `json:"n,omitempty"`
+	Rep  int       `json:"rep,omitempty"` // add: repeat count (one sample per millisecond), for multi-page WAL records
+	Sel  []int     `json:"sel,omitempty"` // series indexes (compactsel)
 }
 
 // Plan = config + operations. Execution is a pure function of the plan.
@@ -152,6 +152,12 @@ func GenConfig(prop, tier string, seed uint64) Config {
 		if f := os.Getenv("VERIF_FORCE_KF"); f != "" && f != "1" {
 			c.KF = f
 		}
+	}
+	if prop == "C53" && c.KF != "" && r.Chance(0.6) {
+		c.KF = []string{"ro-flushwal-omits-out-of-order-head-data", "series-ref-reused-after-snapshot-restart"}[r.Intn(2)]
+	}
+	if prop == "C23" && c.KF != "" && r.Chance(0.6) {
+		c.KF = []string{"series-ref-reused-after-snapshot-restart", "snapshot-kept-when-head-chunk-file-lost-chunks-at-a-chunk-boundary"}[r.Intn(2)]
 	}
 	if prop == "C52" && c.KF != "" && r.Chance(0.4) {
 		c.KF = "head-chunks-gauge-miscounts-mixed-type-ooo-chunks"
@@ -390,13 +396,25 @@ func Shrink(p *Plan) []*Plan {
 		}
 	}
 	simpl(func(c *Config) bool { v := c.WALComp != "none"; c.WALComp = "none"; return v })
-	simpl(func(c *Config) bool { v := c.Snapshot && !c.SnapCheck; if v { c.Snapshot = false }; return v })
+	simpl(func(c *Config) bool {
+		v := c.Snapshot && !c.SnapCheck
+		if v {
+			c.Snapshot = false
+		}
+		return v
+	})
 	simpl(func(c *Config) bool { v := c.FastStart; c.FastStart = false; return v })
 	simpl(func(c *Config) bool { v := c.V2; c.V2 = false; return v })
 	simpl(func(c *Config) bool { v := c.Sharding; c.Sharding = false; return v })
 	simpl(func(c *Config) bool { v := c.HistST; c.HistST = false; return v })
 	simpl(func(c *Config) bool { v := c.ST; c.ST = false; return v })
-	simpl(func(c *Config) bool { v := c.XOR2 && !c.ST; if v { c.XOR2 = false }; return v })
+	simpl(func(c *Config) bool {
+		v := c.XOR2 && !c.ST
+		if v {
+			c.XOR2 = false
+		}
+		return v
+	})
 	simpl(func(c *Config) bool { v := c.IsoOff; c.IsoOff = false; return v })
 	simpl(func(c *Config) bool { v := c.Queue != 0; c.Queue = 0; return v })
 	simpl(func(c *Config) bool { v := c.ReplayConc != 1; c.ReplayConc = 1; return v })
